@@ -56,7 +56,8 @@ impl ops::Deref for Fragment {
 impl cmp::PartialEq for Fragment {
 	#[inline]
 	fn eq(&self, other: &Fragment) -> bool {
-		self.as_pct_str() == other.as_pct_str()
+		// compare the decoded bytes: they may not be UTF-8 encoded text.
+		self.as_pct_str().bytes().eq(other.as_pct_str().bytes())
 	}
 }
 
@@ -79,14 +80,16 @@ impl PartialOrd for Fragment {
 impl Ord for Fragment {
 	#[inline]
 	fn cmp(&self, other: &Fragment) -> cmp::Ordering {
-		self.as_pct_str().cmp(other.as_pct_str())
+		self.as_pct_str().bytes().cmp(other.as_pct_str().bytes())
 	}
 }
 
 impl Hash for Fragment {
 	#[inline]
 	fn hash<H: hash::Hasher>(&self, hasher: &mut H) {
-		self.as_pct_str().hash(hasher)
+		for b in self.as_pct_str().bytes() {
+			b.hash(hasher)
+		}
 	}
 }
 
